@@ -61,7 +61,7 @@ def make_columns(kind, p):
         return pd.RangeIndex(p)
     if kind == "duplicates":        # e.g. two sensor blocks concatenated: per-column labelling is positional, not per label
         return pd.Index((["x", 1, "1", "x"] * p)[:p], dtype=object)
-    return pd.Index(["abc"[j] for j in range(p)])
+    return pd.Index(["abcdefghijklmnop"[j] for j in range(p)])
 
 
 def changepoint_sets(n):
@@ -374,6 +374,11 @@ def datasets(seed, p):
     if p > 1:
         x = base(30); x[5:10, 0] += 8; x[10:16, 1:] -= 8; x[22:27, :] += 8
         out["column-subsets"] = x
+    if p >= 6:
+        # an anomaly that is weak in every column but present in all of them (found under the dense part of the default combined
+        # penalty although no single column pays for its sparse penalty), followed by a strong one in two columns
+        x = np.round(rng.normal(size=(30, p)) * 0.05, 2); x[6:16, :] += 0.85; x[22:27, :2] += 8
+        out["weak-in-all-columns"] = x
     return out
 
 
@@ -431,8 +436,12 @@ def run(tier="quick", seed=0, repo="/repo"):
     for sd in seeds:
         for name in detector_table():
             ps = (1,) if name.startswith(UNIVARIATE_ONLY) or (tier == "quick" and name.startswith(SLOW)) else (1, 3)
+            if name.startswith("MVCAPA"):
+                ps = ps + (8,)
             for p in ps:
                 for dname, X in datasets(sd, p).items():
+                    if p == 8 and dname != "weak-in-all-columns":
+                        continue
                     for ik in INDEX_KINDS:
                         for ck in COLUMN_KINDS:
                             inp = {"part": "B", "detector": name, "dataset": dname, "X": X, "index": ik, "columns": ck}
@@ -443,7 +452,7 @@ def run(tier="quick", seed=0, repo="/repo"):
                             rec.case((name, dname, sd, p, ik, ck), nt, {k: v for k, v in inp.items() if k != "X"} if ik == "period" else None)
     bound = ("part A: ChangeDetector n<=7; CollectiveAnomalyDetector n<=%d; SubsetCollectiveAnomalyDetector exhaustive for %s, "
              "plus all interval sets up to n=%d with seeded column subsets (p=3); x 5 index types x 2 column labellings.  "
-             "part B: 10 detector configurations x 6-7 data sets (n<=30, p in {1,3}) x the same grid, %d seed(s)"
+             "part B: 10 detector configurations x 6-7 data sets (n<=30, p in {1,3}; MVCAPA also one 8-column set with an anomaly weak in every column) x the same grid, %d seed(s)"
              % ((5, "(p=1,n<=4) (p=2,n<=3) (p=3,n<=2)", 4, 1) if tier == "quick"
                 else (7, "(p=1,n<=7) (p=2,n<=5) (p=3,n<=3)", 7, 3)))
     return rec.result(RULE, bound, exhaustive=True, skipped_fit_or_predict_errors=skipped)
